@@ -361,6 +361,20 @@ func c03Header(height uint64, ts time.Time, roots *share.AxisRoots) *header.Exte
 	}
 }
 
+func c03CopyHeader(h *header.ExtendedHeader) *header.ExtendedHeader {
+	cp := func(in [][]byte) [][]byte {
+		out := make([][]byte, len(in))
+		for i := range in {
+			out[i] = append([]byte(nil), in[i]...)
+		}
+		return out
+	}
+	return &header.ExtendedHeader{
+		RawHeader: h.RawHeader,
+		DAH:       &share.AxisRoots{RowRoots: cp(h.DAH.RowRoots), ColumnRoots: cp(h.DAH.ColumnRoots)},
+	}
+}
+
 func newC03Machine(t *rapid.T) *c03Machine {
 	m := &c03Machine{
 		n:       rapid.SampledFrom([]int{1, 2, 3, 4, 5, 7, 15, 16, 16, 17, 25, 40}).Draw(t, "sampleAmount"),
@@ -454,10 +468,13 @@ func (m *c03Machine) start(h *c03Height, deadline bool, prune bool) *c03Call {
 		r := &c03Return{callID: c.id}
 		func() {
 			defer func() { r.panicked = recover() }()
+			// every caller holds its own, separately loaded header object (DASer, RPC, pruner):
+			// equal content, different pointers
+			hdr := c03CopyHeader(h.hdr)
 			if prune {
-				r.err = la.Prune(ctx, h.hdr)
+				r.err = la.Prune(ctx, hdr)
 			} else {
-				r.err = la.SharesAvailable(ctx, h.hdr)
+				r.err = la.SharesAvailable(ctx, hdr)
 			}
 		}()
 		select {
